@@ -72,6 +72,18 @@ impl AsyncTransport for AsyncSmtpTransport<Tokio1Executor> {
     async fn send_raw(&self, envelope: &Envelope, email: &[u8]) -> Result<Self::Ok, Self::Error> {
         let mut conn = self.inner.connection().await?;
 
+        #[cfg(lettre_verif)]
+        let result = match conn.send(envelope, email).await {
+            Ok(result) => {
+                crate::verif_hooks::pool_probe("send_ok", conn.server_info().name());
+                result
+            }
+            Err(err) => {
+                crate::verif_hooks::pool_probe("send_err", conn.server_info().name());
+                return Err(err);
+            }
+        };
+        #[cfg(not(lettre_verif))]
         let result = conn.send(envelope, email).await?;
 
         #[cfg(not(feature = "pool"))]
